@@ -12,6 +12,7 @@ model (canonical name -> bytes) is stepped alongside.  After every write_dirfile
 from __future__ import annotations
 
 import os
+import pathlib
 import random
 import shutil
 import struct
@@ -384,7 +385,9 @@ class Exec:
         if mode in ('r', 'a') and self.disk is None and os.path.exists(self.path):
             raise AssertionError('generator bug: reopen of a never-written directory')
         try:
-            self.vpk = VPK(self.path, mode=mode, dir_data_limit=limit)
+            # the path is given as str and as os.PathLike alternately (both documented)
+            self._opens = getattr(self, '_opens', 0) + 1
+            self.vpk = VPK(pathlib.Path(self.path) if self._opens % 2 == 0 else self.path, mode=mode, dir_data_limit=limit)
         except Exception as exc:
             if mode == 'r' and self.disk is None and isinstance(exc, FileNotFoundError):
                 raise AssertionError('generator bug: r-open of a missing file')
@@ -617,7 +620,7 @@ class Exec:
         model = self.disk or {}
         # (1) fresh read-only object
         try:
-            fresh = VPK(self.path)
+            fresh = VPK(pathlib.Path(self.path) if getattr(self, '_opens', 0) % 2 else self.path)
         except Exception as exc:
             self.fail(f'reopening the written archive raised {type(exc).__name__}: {exc}', traceback.format_exc()[-1500:], key='reopen-raises')
         self.compare_object(fresh, model, 'fresh VPK(path)')
